@@ -45,7 +45,7 @@ def r19_1(ctx):
               expected="placeholders(self._method.eval(self, expr))", found=rets, fi=v)
 
 
-@rule("R19.2", min_instances=9, desc="DirectCollocation.to_function: helper arguments and their initialisers appended pairwise under the same flags, matching widths, caller's list untouched")
+@rule("R19.2", min_instances=18, desc="DirectCollocation.to_function: helper arguments and their initialisers appended pairwise under the same flags, matching widths, caller's list untouched")
 def r19_2(ctx):
     P = ctx.prog
     f = P.own_method("DirectCollocation", "to_function")
@@ -64,14 +64,16 @@ def r19_2(ctx):
     XC, XC0, ZB, ZR, Z0 = Sym("Xc_vars"), Sym("Xc_vars0"), Sym("Zc_vars_base"), Sym("Zc_vars_rest"), Sym("Zc0")
     STATES = Sym("sampled_states")
     n_cases = 0
-    for has_states in (True, False):
-        for has_xc in (False, True):
-            for zmark in (True, False):
-                for has_zr in (False, True):
+    # every combination is run for a stage without and with algebraic states: the hidden helper *states* are needed for
+    # a pure ODE as much as for a DAE (seeded change C19-r11-2 made add_xc depend on stage.nz)
+    for has_states, has_xc, zmark, has_zr, nz in [(a, b, c, d, e) for a in (True, False) for b in (False, True) for c in (True, False) for d in (False, True) for e in (0, 2)]:
+        if True:
+            if True:
+                if True:
                     user = [Sym("arg", 0)] + (["z"] if zmark else []) + [Sym("arg", 1)]
                     rec = {}
                     me = fresh_obj("self", Xc_vars=XC, Xc_vars0=XC0, Zc_vars_base=ZB, Zc_vars_rest=ZR, Zc0=Z0)
-                    stage = fresh_obj("stage", x=Sym("x"))
+                    stage = fresh_obj("stage", x=Sym("x"), nz=nz, nx=3, nu=1, np=1)
 
                     def h_depends(sim, recv, a, k, n, has_states=has_states, has_xc=has_xc, has_zr=has_zr):
                         t = K(a[1])
@@ -118,6 +120,7 @@ def r19_2(ctx):
                     want_call = [K(x) for x in mx[:len(user)]] + ([K(XC0)] if add_xc else []) + ([K(Z0)] if add_zc else [])
                     got_call = [K(x) for x in rec.get("call_args", [])] if isinstance(rec.get("call_args"), list) else None
                     label = "states %s, helpers %s, 'z' %s, rest %s" % tuple("given" if b else "absent" for b in (has_states, has_xc, zmark, has_zr))
+                    label += ", nz=%d" % nz
                     okc = got_inner == want_inner and got_call == want_call
                     ctx.check(okc, "to_function (%s): hidden arguments and their initialisers" % label, detail="hidden argument without (or with another) initial value, or added under the wrong condition",
                               expected="inner arguments = user's (+Xc_vars if states given and helpers absent) (+Zc_vars_rest if 'z' given and rest absent); called with the user's inputs + Xc_vars0 / Zc0 in the same order",
